@@ -84,7 +84,7 @@ class HallOfFame:
         if np.isnan(item_key):
             return False
         if not self:
-            return True
+            return self._max_size is None or self._max_size > 0
         if item_key <= self._keys[-1] or len(self) < self._max_size:
             return self._not_similar(item)
         return False
